@@ -1369,6 +1369,11 @@ class XMLSchemaBase(XsdValidator, ElementPathMixin[Union[SchemaType, XsdElement]
                     yield context.missing_element_error(validation, self, elem, path, schema_path)
                     return
 
+            if elem is not resource.root:
+                # The namespace declarations of a selected element (e.g. a chunk
+                # of a lazy resource) are in scope for its attributes and content.
+                context.converter.set_xmlns_context(elem, context.level)
+
             try:
                 xsd_element.raw_decode(elem, validation, context)
             except XMLSchemaStopValidation:
@@ -1428,6 +1433,9 @@ class XMLSchemaBase(XsdValidator, ElementPathMixin[Union[SchemaType, XsdElement]
                 else:
                     yield context.missing_element_error(validation, self, elem, path, schema_path)
                     continue
+
+            if context.level:
+                context.converter.set_xmlns_context(elem, context.level)
 
             result = xsd_element.raw_decode(elem, validation, context)
             if context.errors:
